@@ -140,6 +140,7 @@ type FnCtx struct {
 	retSite      string
 	unroll       int
 	cmpLabel     string
+	frameNoted   bool
 	baseElem     map[string]types.Type
 	baseKeySort  map[string]string
 	recordBases  map[string]string
